@@ -229,6 +229,8 @@ def run_sim_class(chk, cls, scs, mons, variant=None, batch=250, tag=None):
             sc["raw_commands"] = True          # generic command classes with the command type as a plain int
         if "odd_names" not in sc and k % 5 == 3:
             sc["odd_names"] = True             # timer names containing pattern characters ("slot[1]", "s*", "done?")
+        if "late_config" not in sc and k % 5 == 2:
+            sc["late_config"] = True           # configuration objects filled in AFTER they were handed to handler / builder
         if "truthy_preds" not in sc and k % 2 == 1:
             sc["truthy_preds"] = True          # assertion predicates return non-bool objects with the same truth value
         # the harness' own default switches execution logging off; every fourth scenario runs under the
@@ -285,7 +287,7 @@ def run_sim_class(chk, cls, scs, mons, variant=None, batch=250, tag=None):
 
 def _brief(sc):
     d = {k: sc[k] for k in ("handlers", "nodes", "med", "mob", "asserts", "seed", "dur", "maxit", "drv", "script")}
-    for k in ("reuse_commands", "fresh_controllers", "odd_names", "truthy_preds", "build_twice", "poll_done", "int_numbers", "enum_names", "raw_commands", "rerun", "variant", "stream"):
+    for k in ("reuse_commands", "fresh_controllers", "odd_names", "truthy_preds", "build_twice", "poll_done", "int_numbers", "enum_names", "raw_commands", "rerun", "late_config", "variant", "stream"):
         if k in sc:
             d[k] = sc[k]
     return d
@@ -1200,6 +1202,10 @@ def run_plugin_class(chk, cls, cases, impl, to_text, monitor, nontrivial=lambda 
         out = run_driver("".join(texts))
         for j, c in enumerate(part):
             m = out.get("p%d" % j, ["<no model output>"])
+            if any("outoffuel" in l for l in m):
+                # handlers dispatching each other deeper than the model's fuel: nothing to compare
+                chk.record(cls, {"skipped": "nested dispatch deeper than the model's fuel"}, False)
+                continue
             if any("runaway" in l for l in impls[j]) and any(l.count("call ") > 380 for l in m):
                 # a handler that keeps registering itself makes the chain grow without bound, in the model
                 # as in the code: the harness' invocation guard stopped the implementation; nothing to compare
@@ -1254,16 +1260,22 @@ def ops_candidates(case):
                 yield c
 
 
-def gen_disp_case(R, maxops=10):
+def gen_disp_case(R, maxops=10, nested=False):
     ninst = R.choice([1, 1, 2])
     nh = R.randint(1, 4)
     beh = []
     for h in range(nh):
         table = []
-        for _ in range(R.randint(0, 3)):
+        nent = R.randint(2, 4) if nested else R.randint(0, 3)
+        for e in range(nent):
             res = R.choice(["continue", "continue", "interrupt", "none"])
             ops = []
-            for _ in range(R.choices([0, 1, 2], weights=[5, 3, 1])[0]):
+            for _ in range(R.choices([0, 1, 2, 3], weights=[3, 3, 2, 1])[0] if nested else R.choices([0, 1, 2], weights=[5, 3, 1])[0]):
+                if nested and e < nent - 1 and R.random() < 0.45:
+                    # the handler delivers a callback itself (often of the kind it is running for): a nested dispatch.
+                    # Only in entries used once (the last entry repeats for ever), so the nesting is bounded.
+                    ops.append(("ndisp", R.randrange(ninst), R.choice(["timer", "timer", "timer", "packet", "telem", "init", "finish"]), 0))
+                    continue
                 kind_ = R.choice(["reg", "unreg", "unreg"])
                 if kind_ == "reg":
                     # a running handler registers only handlers with a smaller id: chains cannot amplify themselves
@@ -1280,7 +1292,7 @@ def gen_disp_case(R, maxops=10):
     for _ in range(R.randint(2, maxops)):
         x = R.random()
         i = R.randrange(ninst)
-        k = R.choice(["timer", "timer", "telem", "packet", "init", "finish"])
+        k = R.choice(["timer", "timer", "telem", "packet", "init", "finish"]) if not nested else R.choice(["timer", "timer", "timer", "packet", "telem"])
         if x < 0.4:
             ops.append(("reg", i, k, R.randrange(nh)))
         elif x < 0.55:
@@ -1322,15 +1334,38 @@ def disp_exhaustive(maxlen):
                 yield {"ninst": 1, "beh": beh, "ops": [("create", 0)] + list(combo) + [("disp", 0, "timer")]}
 
 
+def disp_exhaustive_nested(maxlen):
+    """handlers that deliver a callback themselves (a dispatch nested in the running one), then (un)register"""
+    behs = [
+        [[("continue", [("ndisp", 0, "timer", 0), ("unreg", 0, "timer", 0)]), ("continue", [])], [("continue", [])]],
+        [[("continue", [("ndisp", 0, "timer", 0), ("reg", 0, "timer", 1)]), ("continue", [])], [("continue", [])]],
+        [[("continue", [])], [("continue", [("ndisp", 0, "timer", 0), ("unreg", 0, "timer", 1)]), ("continue", [])]],
+        [[("interrupt", [("ndisp", 0, "timer", 0)]), ("continue", [("unreg", 0, "timer", 1)])], [("none", [])]],
+        [[("continue", [("ndisp", 0, "packet", 0), ("unreg", 0, "timer", 1)]), ("continue", [])], [("continue", [("ndisp", 0, "timer", 0)]), ("interrupt", [])]],
+    ]
+    alpha = [("reg", 0, "timer", 0), ("reg", 0, "timer", 1), ("reg", 0, "packet", 1), ("unreg", 0, "timer", 0), ("disp", 0, "timer")]
+    for beh in behs:
+        for n in range(1, maxlen + 1):
+            for combo in itertools.product(alpha, repeat=n):
+                if not any(o[0] == "disp" for o in combo):
+                    continue
+                yield {"ninst": 1, "beh": beh, "ops": [("create", 0)] + list(combo) + [("disp", 0, "timer")]}
+
+
 def check_C15(chk, R, S):
     import plugins
     chk.rule = ("histories of create / register / unregister / dispatch over the five callback kinds, 1-2 protocol "
                 "instances, 1-4 handlers whose results (CONTINUE / INTERRUPT / None) and re-entrant (un)registrations "
                 "vary per invocation; small-scope exhaustive over one chain with self-unregistering / registering / "
-                "interrupting handlers (length <= %d), then random" % (4 if chk.tier == "quick" else 6))
+                "interrupting handlers (length <= %d), then random; the same again with handlers that deliver callbacks themselves "
+                "(dispatches nested in the running one, same kind and other kinds)" % (4 if chk.tier == "quick" else 6))
     run_plugin_class(chk, "disp-exhaustive", list(disp_exhaustive(4 if chk.tier == "quick" else 6)), plugins.run_disp_impl,
                      plugins.disp_to_text, M.mon_C15)
     run_plugin_class(chk, "disp-random", [gen_disp_case(R, 10 if chk.tier == "quick" else 40) for _ in range(S["sims"] * 4)],
+                     plugins.run_disp_impl, plugins.disp_to_text, M.mon_C15)
+    run_plugin_class(chk, "disp-nested-exhaustive", list(disp_exhaustive_nested(4 if chk.tier == "quick" else 5)), plugins.run_disp_impl,
+                     plugins.disp_to_text, M.mon_C15)
+    run_plugin_class(chk, "disp-nested-random", [gen_disp_case(R, 10 if chk.tier == "quick" else 30, nested=True) for _ in range(S["sims"] * 3)],
                      plugins.run_disp_impl, plugins.disp_to_text, M.mon_C15)
     many = {"ninst": 1, "beh": [[("continue", [])]], "ops": [("create", 0), ("reg", 0, "timer", 0)] + [("create", 0)] * 1200 + [("disp", 0, "timer")]}
     run_plugin_class(chk, "disp-many-creates", [many], plugins.run_disp_impl, plugins.disp_to_text, M.mon_C15)
